@@ -125,12 +125,22 @@ package pool
 //@ defines [count]  poolcalls == old(poolcalls) + 1 && lastPoolCall == "connect"
 //@ modifies poolcalls, lastPoolCall
 
+//@ ghost var lastUpdateOK bool
+//@ ghost var lastUpdate *UpdateResponse
+//@ ghost var lastInvalid []string
+//@ ghost var lastActive []string
+//@ ghost var peercalls int
+//@ ghost var lastPeerReq PeerRequest
+//@ ghost var lastPeers []store.Node
+
 //@ interface pool.Pool.Update(ctx, req) (result, err)
 //@ ensures [result] err == nil ==> result != nil
-//@ defines [count]  poolcalls == old(poolcalls) + 1 && lastPoolCall == "update"
-//@ modifies poolcalls, lastPoolCall
+//@ defines [count]  poolcalls == old(poolcalls) + 1 && lastPoolCall == "update" && lastUpdateOK == (err == nil) && lastUpdate == result
+//@                    && (err == nil ==> lastInvalid == result.InvalidPeers && lastActive == result.ActivePeers)
+//@ modifies poolcalls, lastPoolCall, lastUpdateOK, lastUpdate, lastInvalid, lastActive
 
 //@ interface pool.Pool.Peer(ctx, req) (result, err)
 //@ ensures [result] err == nil ==> result != nil
-//@ defines [count]  poolcalls == old(poolcalls) + 1 && lastPoolCall == "peer"
-//@ modifies poolcalls, lastPoolCall
+//@ defines [count]  poolcalls == old(poolcalls) + 1 && lastPoolCall == "peer" && peercalls == old(peercalls) + 1 && lastPeerReq == req
+//@                    && (err == nil ==> lastPeers == result.Peers)
+//@ modifies poolcalls, lastPoolCall, peercalls, lastPeerReq, lastPeers
